@@ -40,13 +40,21 @@ Theorem ShexStage_K1_max : forall fa cfg (okF : F fa -> Prop) (okN : N -> Prop),
 Proof. exact key_passes_max. Qed.
 Print Assumptions ShexStage_K1_max.
 
-(** with [remove_empty]: what is left are shapes of the profile with a subset
-    of their statements (so K3/K4 hold for them), and none is empty *)
-Theorem ShexStage_remove_no_empty : forall fa cfg (thr : F fa) P C shapes,
+(** with [remove_empty]: what is left are non-empty shapes of classes of the
+    profile; a key that is present has an entry at or above the threshold, and
+    no key occurs twice.  (The converse of presence fails exactly for
+    references to removed shapes: see [ShexStage_K2_remove_key_refuted].) *)
+Theorem ShexStage_K1_remove : forall fa cfg (thr : F fa) P C shapes,
   x_remove_empty cfg = true -> shex fa cfg thr P C = inl shapes ->
-  forall sh, In sh shapes -> sh_stmts sh <> [].
-Proof. exact shex_remove_no_empty. Qed.
-Print Assumptions ShexStage_remove_no_empty.
+  forall sh, In sh shapes ->
+  exists ce, In ce P /\ sh_name sh = shape_name (x_shapes_ns cfg) (fst ce) /\ sh_class sh = fst ce /\
+    sh_n sh = cnt_of C (fst ce) /\ sh_stmts sh <> [] /\
+    (forall inv p vc, In (inv, p, vc) (map (skey cfg) (sh_stmts sh)) ->
+                      key_passes fa cfg thr (cnt_of C (fst ce)) (class_pd cfg ce inv) p vc) /\
+    (pd_no_nl cfg (class_pd cfg ce false) -> pd_no_nl cfg (class_pd cfg ce true) ->
+     NoDup (map (skey cfg) (sh_stmts sh))).
+Proof. exact K1_remove. Qed.
+Print Assumptions ShexStage_K1_remove.
 
 (** ** K3 (C01): every figure of the output is a figure of the profile
     ([post_ok], see Proofs/ShexKeys.v); the threshold does not occur. *)
